@@ -35,6 +35,8 @@ enum OpKind {
 	Batch(usize),
 	Subscribe,
 	Notification,
+	/// `subscribe_to_method`: registers a handler for plain notifications; nothing goes on the wire
+	SubscribeToMethod,
 }
 
 #[derive(Debug, Clone, PartialEq, Eq, Hash)]
@@ -43,6 +45,9 @@ enum Fault {
 	/// the transport fails exactly when the unsubscribe request of a dropped stream is written
 	SendErrorOnUnsubscribe,
 	RecvError,
+	/// double fault: the send half fails (cause A); while the transport is still being closed the receive half fails
+	/// with another error (cause B); observers before and after B must all report one cause
+	SendThenRecvError,
 	PeerClose,
 	NotJson,
 	JsonNoMessage,
@@ -76,6 +81,9 @@ struct Spec {
 	slow_close: bool,
 	/// gate at "front-end channel closed": the send task is held there until a late caller has started
 	gate_frontend_closed: bool,
+	/// (send errors only) the failing write first stalls inside the transport's `send` while the later operations are
+	/// queued behind it, and fails afterwards
+	stall_send: bool,
 }
 
 #[derive(Debug, Clone, PartialEq)]
@@ -102,6 +110,7 @@ async fn run_op(c: Arc<SimClient>, kind: OpKind, tag: String) -> OpOut {
 			OpKind::Call => c.request::<Value, _>("call", rpc_params![tag]).await.map(|_| ()),
 			OpKind::Notification => c.notification("note", rpc_params![tag]).await,
 			OpKind::Subscribe => c.subscribe::<Value, _>("sub", rpc_params![tag], "unsub").await.map(|_| ()),
+			OpKind::SubscribeToMethod => c.subscribe_to_method::<Value>(&format!("plain-{tag}")).await.map(|_| ()),
 			OpKind::Batch(n) => {
 				let mut b = BatchRequestBuilder::new();
 				for j in 0..n {
@@ -155,9 +164,11 @@ async fn run_spec(spec: &Spec) -> Out {
 
 	let (client, mut srv) = client(ClientCfg { request_timeout: REQUEST_TIMEOUT, ..Default::default() });
 	let close_gate = Arc::new(Notify::new());
-	if spec.slow_close {
+	let slow_close = spec.slow_close || spec.fault == Fault::SendThenRecvError;
+	if slow_close {
 		*srv.ctl.close_gate.lock().unwrap() = Some(close_gate.clone());
 	}
+	let send_gate = Arc::new(Notify::new());
 
 	// an open stream
 	let mut stream_task = None;
@@ -232,9 +243,23 @@ async fn run_spec(spec: &Spec) -> Out {
 	let nonce = format!("nonce-{:x}", spec.seed & 0xffff_ffff);
 	let mut expect_dead = true;
 	let expected_cause: Option<String> = match &spec.fault {
-		Fault::SendError => {
+		Fault::SendError | Fault::SendThenRecvError => {
 			let n = srv.ctl.sends.load(Ordering::SeqCst);
 			*srv.ctl.fail_from.lock().unwrap() = Some((n, format!("send failed {nonce}")));
+			if spec.stall_send {
+				*srv.ctl.send_gate.lock().unwrap() = Some(send_gate.clone());
+			}
+			if spec.fault == Fault::SendThenRecvError {
+				// cause B arrives a few milliseconds later, while close() of the transport is still pending
+				if let Some(tx) = srv.to_client.clone() {
+					let text = format!("receive failed second-{nonce}");
+					let after = 3 + (spec.seed % 5);
+					tokio::spawn(async move {
+						tokio::time::sleep(Duration::from_millis(after)).await;
+						let _ = tx.send(ServerIn::Err(text));
+					});
+				}
+			}
 			// something must be sent for the fault to strike: one more call (it is outstanding when the fault hits)
 			tasks.push(("trigger".into(), OpKind::Call, false, tokio::spawn(run_op(client.clone(), OpKind::Call, "trigger".into()))));
 			Some(nonce.clone())
@@ -287,7 +312,14 @@ async fn run_spec(spec: &Spec) -> Out {
 			None
 		}
 	};
+	// double fault: either cause is a true one, but every observer must report the same
+	let expected_cause = if spec.fault == Fault::SendThenRecvError { None } else { expected_cause };
 	out.history.push(format!("fault: {:?}", spec.fault));
+	// an observer of on_disconnect() that is already waiting when the cause is first stored
+	let early_disc = {
+		let c = client.clone();
+		tokio::spawn(async move { tokio::time::timeout(REQUEST_TIMEOUT + SLACK, c.on_disconnect()).await.ok().map(|e| err_kind(&e)) })
+	};
 
 	// late operations
 	let mut late_sorted = spec.late_ops.clone();
@@ -304,7 +336,12 @@ async fn run_spec(spec: &Spec) -> Out {
 		gate.notify_one();
 	}
 	// let callers run into the window, then release the slow close
-	tokio::time::sleep(Duration::from_millis(if spec.slow_close { 15 } else { 3 })).await;
+	if spec.stall_send {
+		// the later operations are queued behind the stalled write by now; it fails
+		tokio::time::sleep(Duration::from_millis(2)).await;
+		send_gate.notify_one();
+	}
+	tokio::time::sleep(Duration::from_millis(if slow_close { 15 } else { 3 })).await;
 	close_gate.notify_waiters();
 	close_gate.notify_one();
 	gate.notify_one();
@@ -356,7 +393,7 @@ async fn run_spec(spec: &Spec) -> Out {
 	let dead = !client.is_connected();
 	out.conn_ended = dead;
 	let fclass = spec.fault.class();
-	let sched = if spec.gate_frontend_closed { "gated" } else if spec.slow_close { "slow-close" } else if spec.hook_delays { "delays" } else { "plain" };
+	let sched = if spec.stall_send { "stalled-send" } else if spec.gate_frontend_closed { "gated" } else if spec.slow_close { "slow-close" } else if spec.hook_delays { "delays" } else { "plain" };
 	macro_rules! bad {
 		($kind:expr, $($arg:tt)*) => { out.violations.push((format!("{}/{}", $kind, fclass), format!("[schedule: {sched}] {}", format!($($arg)*)))) };
 	}
@@ -397,6 +434,11 @@ async fn run_spec(spec: &Spec) -> Out {
 		if let Some(k) = &disc_cause {
 			check_cause("on_disconnect()", k, &mut out);
 		}
+		match early_disc.await {
+			Ok(Some(k)) => check_cause("on_disconnect() awaited since the fault", &k, &mut out),
+			Ok(None) => out.violations.push((format!("on-disconnect-pending/{fclass}"), format!("[schedule: {sched}] an on_disconnect() awaited since the fault did not resolve"))),
+			Err(e) => out.violations.push((format!("operation-panicked/{fclass}"), format!("on_disconnect observer: {e}"))),
+		}
 		for (tag, kind, answered, o) in &results {
 			out.outcomes += 1;
 			match o {
@@ -404,7 +446,7 @@ async fn run_spec(spec: &Spec) -> Out {
 					// only operations answered before the fault may succeed; a notification that was sent before the fault too
 					// a notification is fire-and-forget: Ok means "handed to the background task", also right around the failure
 					let pre = tag.starts_with("pre");
-					if !(pre && *answered) && *kind != OpKind::Notification && !(matches!(spec.fault, Fault::Generated(_) | Fault::BatchReplyIds(_))) {
+					if !(pre && *answered) && *kind != OpKind::Notification && *kind != OpKind::SubscribeToMethod && !(matches!(spec.fault, Fault::Generated(_) | Fault::BatchReplyIds(_))) {
 						bad!("succeeded-after-failure", "{tag} ({kind:?}) returned Ok although it was not answered before the fault");
 					}
 				}
@@ -443,6 +485,7 @@ async fn run_spec(spec: &Spec) -> Out {
 		if let Some(t) = stream_task {
 			t.abort();
 		}
+		early_disc.abort();
 	}
 	out.points = points.lock().unwrap().iter().map(|p| p.to_string()).collect();
 	clear_thread_hook();
@@ -662,11 +705,12 @@ fn gen_spec(seed: u64, directed: Option<(Fault, bool, bool)>) -> Spec {
 	let n_pre = r.usize(4);
 	let pre_ops = (0..n_pre).map(|_| (op(&mut r), r.chance(1, 3))).collect();
 	let n_late = 1 + r.usize(3);
-	let late_ops = (0..n_late).map(|_| (*r.pick(&[0u64, 0, 1, 2, 5, 20]), op(&mut r))).collect();
+	let late_ops = (0..n_late).map(|_| (*r.pick(&[0u64, 0, 1, 2, 5, 20]), if r.chance(1, 6) { OpKind::SubscribeToMethod } else { op(&mut r) })).collect();
 	let (fault, slow_close, gate) = match directed {
 		Some(d) => d,
 		None => {
-			let f = match r.below(13) {
+			let f = match r.below(14) {
+				13 => Fault::SendThenRecvError,
 				12 => Fault::SendErrorOnUnsubscribe,
 				0 | 1 => Fault::SendError,
 				2 => Fault::RecvError,
@@ -681,7 +725,8 @@ fn gen_spec(seed: u64, directed: Option<(Fault, bool, bool)>) -> Spec {
 			(f, r.chance(1, 4), r.chance(1, 4))
 		}
 	};
-	Spec { seed, pre_ops, open_stream: r.chance(1, 2), fault, late_ops, hook_delays: r.chance(2, 3), slow_close, gate_frontend_closed: gate }
+	let stall_send = matches!(fault, Fault::SendError | Fault::SendThenRecvError) && r.chance(1, 2);
+	Spec { seed, pre_ops, open_stream: r.chance(1, 2), fault, late_ops, hook_delays: r.chance(2, 3), slow_close, gate_frontend_closed: gate, stall_send }
 }
 
 fn record(spec: &Spec, o: Out, ev: &mut Evidence, violations: &mut Vec<Violation>) {
@@ -698,8 +743,14 @@ fn record(spec: &Spec, o: Out, ev: &mut Evidence, violations: &mut Vec<Violation
 	if spec.slow_close {
 		ev.count("slow_close_schedules", 1);
 	}
+	if spec.stall_send {
+		ev.count("stalled_send_schedules", 1);
+	}
+	if spec.late_ops.iter().any(|(_, k)| *k == OpKind::SubscribeToMethod) {
+		ev.count("histories_with_subscribe_to_method", 1);
+	}
 	if o.outcomes > 0 {
-		ev.nontrivial(&(format!("{:?}", spec.fault), &spec.pre_ops, &spec.late_ops, spec.slow_close, spec.gate_frontend_closed, spec.open_stream));
+		ev.nontrivial(&(format!("{:?}", spec.fault), &spec.pre_ops, &spec.late_ops, spec.slow_close, spec.gate_frontend_closed, spec.open_stream, spec.stall_send));
 	}
 	ev.class("schedule_traces", &o.points);
 	ev.class("causes", &o.causes_seen);
@@ -708,7 +759,7 @@ fn record(spec: &Spec, o: Out, ev: &mut Evidence, violations: &mut Vec<Violation
 			"slow_close": spec.slow_close, "gate": spec.gate_frontend_closed, "causes": o.causes_seen, "points": o.points}));
 	}
 	let w = json!({"seed": spec.seed, "fault": format!("{:?}", spec.fault), "pre_ops": format!("{:?}", spec.pre_ops), "late_ops": format!("{:?}", spec.late_ops), "open_stream": spec.open_stream,
-		"slow_close": spec.slow_close, "gate_frontend_closed": spec.gate_frontend_closed, "hook_delays": spec.hook_delays, "history": o.history, "library_points": o.points});
+		"slow_close": spec.slow_close, "gate_frontend_closed": spec.gate_frontend_closed, "stall_send": spec.stall_send, "hook_delays": spec.hook_delays, "history": o.history, "library_points": o.points});
 	for (sig, d) in o.violations {
 		violations.push(Violation::new(sig, d, w.clone()));
 	}
@@ -718,14 +769,14 @@ fn all_specs(seed: u64, n_random: u64) -> Vec<Spec> {
 	let mut v = Vec::new();
 	// fault enumeration: every fault kind x schedule variant x several histories
 	let mut faults: Vec<Fault> =
-		vec![Fault::SendError, Fault::SendErrorOnUnsubscribe, Fault::RecvError, Fault::PeerClose, Fault::NotJson, Fault::JsonNoMessage, Fault::UnknownIdResponse, Fault::EmptyArray];
+		vec![Fault::SendError, Fault::SendThenRecvError, Fault::SendErrorOnUnsubscribe, Fault::RecvError, Fault::PeerClose, Fault::NotJson, Fault::JsonNoMessage, Fault::UnknownIdResponse, Fault::EmptyArray];
 	for ids in HOSTILE_IDS {
 		faults.push(Fault::BatchReplyIds(ids));
 	}
 	let mut k = 0u64;
 	for f in &faults {
 		for (slow, gate) in [(false, false), (true, false), (false, true), (true, true)] {
-			for _ in 0..6 {
+			for _ in 0..(if matches!(f, Fault::SendError | Fault::SendThenRecvError) { 12 } else { 6 }) {
 				k += 1;
 				v.push(gen_spec(Rng::fork(seed, 100_000 + k).next_u64(), Some((f.clone(), slow, gate))));
 			}
